@@ -650,6 +650,16 @@ func (b *reBox) Get() int64 { return b.V }
 
 type reHolder struct{ In *reBox }
 
+// reBox2 / reHolder2: another type with the same field and a method Get that sits at ANOTHER position of the
+// method set (methods are sorted by name: Aaa, Get, Zzz) - injected over reBox without removing it first
+type reBox2 struct{ V int64 }
+
+func (b *reBox2) Aaa() int64 { return -1 }
+func (b *reBox2) Get() int64 { return b.V }
+func (b *reBox2) Zzz() int64 { return -2 }
+
+type reHolder2 struct{ In *reBox2 }
+
 func mkTwinA(v int64) interface{} {
 	type twin struct{ A, B int64 }
 	return &twin{A: v, B: v + 1}
@@ -737,6 +747,12 @@ rule "midarg" salience -3 begin Late2 = 7 seen = reidn(Late2) injlate2() return 
 	check("other-object-after-removal", map[string]int64{"m": base + 1, "f": base + 1, "fn": (base + 1) * 10, "t": (base + 1) * 100, "w": base + 1001})
 	inject(base + 2) // overwrite without removing first
 	check("overwritten", map[string]int64{"m": base + 2, "f": base + 2, "fn": (base + 2) * 10, "t": (base + 2) * 100, "w": base + 1002})
+	// ... and by an object of another type whose method of that name has another index in its method set
+	dc.Add("Obj", &reBox2{V: base + 3})
+	dc.Add("Holder", &reHolder2{In: &reBox2{V: (base + 3) * 100}})
+	check("overwritten-by-another-type", map[string]int64{"m": base + 3, "f": base + 3, "fn": (base + 2) * 10, "t": (base + 3) * 100, "w": base + 1003})
+	inject(base + 2)
+	check("overwritten-back", map[string]int64{"m": base + 2, "f": base + 2, "fn": (base + 2) * 10, "t": (base + 2) * 100, "w": base + 1002})
 	dc.Del("Obj")
 	check("partly-removed", map[string]int64{"fn": (base + 2) * 10, "t": (base + 2) * 100})
 	// a plain name that was a rule local in the earlier calls is now injected as a pointer: the
